@@ -204,7 +204,12 @@ pub fn gen_index(rng: &mut Rng) -> IndexCase {
         };
         for _ in 0..n {
             let pad = if Some(counter) == long_at {
-                rng.range(200, 3000) as usize
+                if rng.chance(1, 4) {
+                    // longer than any buffered reader's capacity
+                    rng.range(8_200, 20_000) as usize
+                } else {
+                    rng.range(200, 3000) as usize
+                }
             } else {
                 match rng.below(4) {
                     0 => 0,
